@@ -273,6 +273,76 @@ def c18_stop_while_peer_closes(policy):
         r.close()
 
 
+CFG4 = {"node": {"idle": 30, "dwa": 4, "cer": 4, "cea": 4, "wakeup": 1, "retx": 4},
+        "peers": [peer_cfg("p1", persistent=True, rwait=2)], "apps": [app_cfg("a1", 4, peers=["p1"], handler="answer")]}
+
+
+def c18_stop_while_reconnect_due(policy):
+    """stop() is called at the instant a persistent peer's reconnect wait has elapsed: the I/O loop inside _reconnect_peers /
+    _connect_to_peer against the stopping thread, scheduling points at every source line of the three functions.  Oracle
+    (the statement's "dials no peers while stopping"): no connect() after stop() has marked the node as stopping."""
+    import inspect
+    from .world import role_policy
+    r = nt.Runner(CFG4, seed=1)
+    w = r.w
+    try:
+        N = w.ns.node.Node
+        src, first = inspect.getsourcelines(N.stop)
+        flag_line = next(first + i for i, ln in enumerate(src) if ln.strip() == "self._stopping = True")
+        studied = {N.stop.__code__: "stop", N._reconnect_peers.__code__: "reconnect", N._connect_to_peer.__code__: "connect"}
+        w.s.tracing = False
+        base = explore.make_line_tracer(w.s, studied, call_boundaries=False)
+        stop_code = N.stop.__code__
+
+        def tracefn(frame, event, arg):
+            local = base(frame, event, arg)
+            if local is None or frame.f_code is not stop_code:
+                return local
+            seen = []
+
+            def wrapped(fr, ev, a):
+                if ev == "line" and fr.f_lineno > flag_line and not seen:      # the first line executed after the flag is set
+                    seen.append(1)
+                    w.s.emit("stopping_set", fds=sorted(w.fd2c))      # sockets of the connections registered with the node so far
+                local(fr, ev, a)
+                return wrapped          # (stay installed: a local trace function is replaced by what it returns)
+            return wrapped
+        w.s.tracefn = tracefn           # (installed before the node's threads start: the I/O loop is traced too)
+        r.do({"a": "start"})
+        c = next(e["c"] for e in r.steps[-1]["out"] if e["ev"] == "dial")
+        r.do({"a": "connect_result", "c": c, "err": 111})      # the first attempt fails: the peer is now "lost"
+        r.do({"a": "tick"})
+        act = {"a": "stop", "force": False, "wait": 3, "also": {"a": "tick"}}
+        r._mark = len(w.s.obs)
+        w.s.advance(1)
+        w.s.emit("tick")
+        w.spawn(_stopper(w, False, 3), name="stopper", role="stop")
+        w.s.tracing = True
+        w.s.policy = policy
+        w.s.run()
+        w.s.tracing = False
+        w.s.policy = role_policy
+        w.s.run()
+        obs = w.s.obs[r._mark:]
+        evs = [e["ev"] for e in obs]
+        oracle = []
+        if "stopping_set" in evs:
+            k = evs.index("stopping_set")
+            for e in obs[k:]:
+                if e["ev"] == "dial":
+                    # the dial's connection was registered with the node before stop() marked it as stopping (the decision and
+                    # the refusal check both preceded stop(): a window of a few statements), or only afterwards
+                    oracle.append("dial_while_stopping:connection_registered_before_stop" if e["fd"] in obs[k]["fds"]
+                                  else "dial_while_stopping:connection_registered_after_stop_began")
+        r.steps.append({"act": act, "out": r._collect(), "snap": w.snap()})
+        for _ in range(6):
+            r.do({"a": "tick"})
+        return {"steps": r.steps, "exits": [(n, e) for n, e, _ in w.s.exits], "params": nt.model_params(r.full_cfg, max_conn=6),
+                "oracle": oracle, "marker_seen": "stopping_set" in evs}
+    finally:
+        r.close()
+
+
 def c18_dpa_with_output_pending(policy):
     """While stopping, a peer delivers a watchdog request and the DPA in one network read; reader, writer and
     I/O loop run under every schedule (scheduling points: every visible operation of the runtime)."""
